@@ -10,7 +10,7 @@ import time
 from whenever import Instant
 
 T0 = 946684800 - 366 * 86400      # 1999-01-01 (one year of margin)
-T1 = 2145916800 + 30 * 86400      # 2038-01-31
+T1 = 2240611200                   # 2041-01-01 (whenever continues with the zone's POSIX rule)
 
 
 def off(ts: int) -> int:
